@@ -456,6 +456,8 @@ pub fn format_table_constructor(
     shape: Shape,
 ) -> TableConstructor {
     const BRACE_LEN: usize = "{".len();
+    #[cfg(feature = "verif")]
+    crate::verif::tick();
 
     let (start_brace, end_brace) = table_constructor.braces().tokens();
 
